@@ -104,6 +104,10 @@ open Ezpz
 /-! ### C10 — deterministic, entry points agree -/
 #check @C10.level_order_independent
 #check @C10.analysis_only_adds_failure_partial     -- hypothesis excluded by known finding F10
+#check @Text.text_analysis_only_adds_failure         -- text front-end (single level): unconditional
+#check @Text.text_analysis_ok_then_plain_ok
+#check @Text.withConfig_of_noMetadata_ok             -- solve_with_config reports what solve_no_metadata computed
+#check @Text.text_methods_shape                      -- call structure regenerated from executor.rs
 
 /-! ### C11 — a satisfied configuration is left untouched -/
 #check @C11.converged_guess_untouched
